@@ -83,6 +83,14 @@ def run(ctx):
         runs.append(fc.record(data, "sock", 4096, 0, rng, 5, f"sock-cut-{cut}",
                               chooser=lambda lim, it=it: min(lim, next(it, lim))))
     fc.validate_traces(ctx, "C02", runs, "random")
+    # real file objects of every flavour must frame complete streams like the validated in-memory file
+    oscases = []
+    for i in range(4 if q else 30):
+        skip = rng.choice([0, 0, 5])
+        lens = [rng.choice([1, 2, 7, 255, 1024, 1017, 4090]) for _ in range(rng.randint(1, 10))]
+        data = _mk_stream(rng, packets, lens, skip)
+        oscases.append((data, rng.choice([0, 0, 7, 4096]), skip, rng.randrange(len(data))))
+    fc.os_sources_section(ctx, "C02", oscases)
 
     # > 20 MB: the buffer-trim branch (thorough: also via socket and file with small reads)
     big = []
@@ -183,6 +191,13 @@ def _amplify_drift(ctx, runs, packets, rng):
 def replay(ctx, obj):
     import random
     from harness import framer_io
+    if obj.get("kind") in fc.OS_KINDS:
+        if obj.get("data") is None:
+            print("replay of a large os-source case: re-run the check")
+            return
+        fc.os_sources_section(ctx, ctx.pid, [(bytes(obj["data"]), obj["rsize"], obj["skip"], obj["cut"])])
+        print("violations:", len(ctx.violations))
+        return
     data = bytes(obj["data"])
     script = framer_io.Script(obj.get("chunks", []))
     ev, items, outcome = framer_io.run_framer(data, obj["kind"], obj["rsize"], obj["skip"], chooser=script, max_items=1000)
